@@ -20,7 +20,7 @@ PAIRS = [
 
 
 # ------------------------------------------------------------------------------ writer side
-def writer_table(ctx, fn):
+def writer_table(ctx, fn, _depth=0):
     """{key: value expr} written into the dict returned by fn; plus the set of 'always' keys
     (written on the unfitted early-return path too)."""
     table = {}
@@ -54,11 +54,26 @@ def writer_table(ctx, fn):
                 and isinstance(n.func.value, ast.Name) and n.func.value.id in returned and n.args \
                 and isinstance(n.args[0], ast.Dict):
             add_dict(n.args[0], False)
+        elif isinstance(n, ast.Call) and isinstance(n.func, ast.Attribute) and n.func.attr == 'update' \
+                and isinstance(n.func.value, ast.Name) and n.func.value.id in returned and n.args and isinstance(n.args[0], ast.Call) and _depth < 2:
+            # result.update(self._fitted_part()): the entries of the dict a project helper returns
+            h = n.args[0]
+            g = None
+            if isinstance(h.func, ast.Attribute) and is_self_attr(h.func, fn.self_name) and fn.cls is not None:
+                g = fn.cls.lookup(h.func.attr)
+            elif ctx is not None:
+                g = ctx.prog.functions.get(ctx.prog.resolve(fn.module, h.func) or '')
+            if g is not None:
+                for k_, v_ in writer_table(ctx, g, _depth + 1).items():
+                    if not hasattr(v_, '_owner_fn'):
+                        v_._owner_fn = g
+                    table[k_] = v_
     return table
 
 
 def _inline(fn, expr, depth=3):
     """Replace a local name by its single assignment (to classify writer/reader transforms)."""
+    fn = getattr(expr, '_owner_fn', fn)
     from ..idioms import single_def
     seen = 0
     while isinstance(expr, ast.Name) and seen < depth:
@@ -81,6 +96,7 @@ def _inline(fn, expr, depth=3):
 def writer_transform(ctx, fn, expr):
     """(transform tag, self attribute the value derives from, element class for 'dicts')."""
     prog = ctx.prog
+    fn = getattr(expr, '_owner_fn', fn)
     e = _inline(fn, expr)
     # `value if <present> else None`: classify the non-None alternative
     if isinstance(e, ast.IfExp):
